@@ -31,6 +31,10 @@ CONSTANTS
   AdvKinds,      \* adversary actions enabled in this configuration
   UseIds,        \* TRUE: datagrams carry their send sequence number (trace validation); FALSE: anonymous (model checking)
   TrackWire,     \* keep the eavesdropper's history (needed by NoRepeatOnLinks / replayed destroys)
+  NodeTeardown,  \* TRUE: relays / exits may tear a circuit down on their own initiative
+  MayVanish,     \* TRUE: nodes may disappear (C09: abandoned circuits)
+  Aead,          \* TRUE: a layer only comes off if it authenticates (ChaCha20-Poly1305); FALSE: negative control
+  CheckIdent,    \* TRUE: an answer must carry the identifier of the outstanding request (the code); FALSE: negative control
   AutoTimers     \* TRUE: sweeps/pings are driven by sweepAt/pingAt (model checking); FALSE: any time (trace validation)
 
 None == "none"
@@ -55,9 +59,10 @@ VARIABLES
   hist,      \* history: [sent : payload -> [o, cid, dest], exitLog, origLog : sets, fwdEarly : [<<n,cid>> -> Nat]]
   budget,    \* [loss, dup, adv]
   wire,      \* history: every datagram that was ever in flight (what an eavesdropper saw); {} unless TrackWire
+  gone,      \* nodes whose endpoint is closed (crashed / abandoned their circuits): they send and receive nothing
   stepc      \* number of steps taken (stamps sleeping remove_* tasks so that two of them are two); 0 unless UseIds
 vars == <<circ, relay, exit, retryC, createdC, createC, pingC, pend, net, ctr, now, sweepAt, pingAt, hist, budget, wire,
-          stepc>>
+          gone, stepc>>
 
 EmptyF == [x \in {} |-> 0]
 Put(f, k, v) == (k :> v) @@ f
@@ -73,13 +78,13 @@ Init ==
   /\ now = 0 /\ sweepAt = [n \in Node |-> SweepEvery] /\ pingAt = [n \in Node |-> PingEvery]
   /\ hist = [sent |-> EmptyF, exitLog |-> {}, origLog |-> {}, fwdEarly |-> EmptyF]
   /\ budget = [loss |-> 0, dup |-> 0, adv |-> 0]
-  /\ wire = {} /\ stepc = 0
+  /\ wire = {} /\ stepc = 0 /\ gone = {}
 
 (* ------------------------------------------------ onions ------------------------------------------------- *)
 Layer(k, d) == [k |-> k, d |-> d, ok |-> TRUE]
 \* encrypt_cell(cell, direction, *hops): innermost = last hop, outermost = first hop; no-op for plaintext cells
 Wrap(L, d, keys) == [i \in 1..Len(keys) |-> Layer(keys[i], d)] \o L
-CanPeel(L, k, d) == L # <<>> /\ Head(L).k = k /\ Head(L).d = d /\ Head(L).ok
+CanPeel(L, k, d) == L # <<>> /\ Head(L).k = k /\ Head(L).d = d /\ (Head(L).ok \/ ~Aead)
 \* decrypt_cell(cell, direction, *hops): peel in hop order; result <<ok, rest>>
 RECURSIVE Peel(_, _, _)
 Peel(L, d, keys) == IF keys = <<>> THEN <<TRUE, L>>
@@ -93,8 +98,11 @@ Destroy(src, dst, cid, signer) ==
 
 \* put a sequence of datagrams on the wire (ids in sending order), removing the consumed ones
 Bump(v, k) == IF UseIds THEN v + k ELSE 0
+BumpN(n, v, k) == IF n \in gone THEN v ELSE Bump(v, k)
+\* (a closed endpoint sends nothing: every Emit below is by one node, so either all or none of ms is sent)
+Sends(ms) == IF ms # <<>> /\ ms[1].src \in gone THEN <<>> ELSE ms
 Emit(consumed, ms) ==
-  /\ net' = (net \ consumed) \cup {[ms[i] EXCEPT !.id = IF UseIds THEN ctr.msg + i ELSE 0] : i \in 1..Len(ms)}
+  /\ net' = (net \ consumed) \cup {[Sends(ms)[i] EXCEPT !.id = IF UseIds THEN ctr.msg + i ELSE 0] : i \in 1..Len(Sends(ms))}
 StampIds(ms) == [i \in 1..Len(ms) |-> [id |-> 0] @@ ms[i]]
 
 (* circuit state as in tunnel.py Circuit.state *)
@@ -128,7 +136,7 @@ CreateCircuit(o, goal, first, alts) ==
         /\ retryC' = [retryC EXCEPT ![o] = Put(@, cid, [ident |-> id, tries |-> Tries - 1, alts |-> alts,
                                                         kind |-> "create", due |-> now + NextHop])]
         /\ Emit({}, StampIds(<<Cell(o, first, cid, TRUE, 0 < MaxEarly, <<>>, m)>>))
-        /\ ctr' = [ctr EXCEPT !.cid = cid, !.eph = e, !.ident = id, !.msg = Bump(@, 1)]
+        /\ ctr' = [ctr EXCEPT !.cid = cid, !.eph = e, !.ident = id, !.msg = BumpN(o, @, 1)]
   /\ UNCHANGED <<relay, exit, createdC, createC, pingC, pend, now, sweepAt, pingAt, hist, budget>>
 
 \* send_data into a ready circuit (TunnelCommunity.send_data from the circuit owner)
@@ -139,7 +147,7 @@ SendData(o, cid, dest) ==
          r == OwnCell(o, cid, [t |-> "data", cid |-> cid, dest |-> dest, origin |-> Null, p |-> p])
      IN /\ circ' = [circ EXCEPT ![o] = Put(@, cid, r.circ)]
         /\ Emit({}, StampIds(<<r.cell>>))
-        /\ ctr' = [ctr EXCEPT !.data = p, !.msg = Bump(@, 1)]
+        /\ ctr' = [ctr EXCEPT !.data = p, !.msg = BumpN(o, @, 1)]
         /\ hist' = [hist EXCEPT !.sent = Put(@, p, [o |-> o, cid |-> cid, dest |-> dest])]
   /\ UNCHANGED <<relay, exit, retryC, createdC, createC, pingC, pend, now, sweepAt, pingAt, budget>>
 
@@ -156,8 +164,23 @@ RemoveCircuit(o, cid, destroy) ==
   /\ Has(circ[o], cid) /\ (UseIds \/ ~circ[o][cid].closing)
   /\ LET r == RemoveCircuitStep(o, cid, destroy) IN
        /\ circ' = [circ EXCEPT ![o] = r.circ] /\ retryC' = [retryC EXCEPT ![o] = r.retry] /\ pend' = r.pend
-       /\ Emit({}, StampIds(r.msgs)) /\ ctr' = [ctr EXCEPT !.msg = Bump(@, Len(r.msgs))]
+       /\ Emit({}, StampIds(r.msgs)) /\ ctr' = [ctr EXCEPT !.msg = BumpN(o, @, Len(r.msgs))]
   /\ UNCHANGED <<relay, exit, createdC, createC, pingC, now, sweepAt, pingAt, hist, budget>>
+
+\* a relay tears its route down (remove_relay(cid, destroy=True)): the destroy goes to the far side of that entry
+NodeRemoveRelay(n, cid) ==
+  /\ Has(relay[n], cid)
+  /\ pend' = pend \cup {Pending(n, "relay", cid)}
+  /\ Emit({}, StampIds(<<Destroy(n, relay[n][cid].next, relay[n][cid].to, n)>>))
+  /\ ctr' = [ctr EXCEPT !.msg = BumpN(n, @, 1)]
+  /\ UNCHANGED <<circ, relay, exit, retryC, createdC, createC, pingC, now, sweepAt, pingAt, hist, budget>>
+\* an exit tears its socket down (remove_exit_socket(cid, destroy=True)): the destroy goes to the previous hop
+NodeRemoveExit(n, cid) ==
+  /\ Has(exit[n], cid)
+  /\ pend' = pend \cup {Pending(n, "exit", cid)}
+  /\ Emit({}, StampIds(<<Destroy(n, exit[n][cid].prev, cid, n)>>))
+  /\ ctr' = [ctr EXCEPT !.msg = BumpN(n, @, 1)]
+  /\ UNCHANGED <<circ, relay, exit, retryC, createdC, createC, pingC, now, sweepAt, pingAt, hist, budget>>
 
 (* ---------------------------------------------- handlers ------------------------------------------------ *)
 \* what process_cell does before a handler sees the message: <<kind, L'>> with kind in relay / handle / drop
@@ -329,7 +352,7 @@ OnCreated(d) ==
                 /\ ctr' = [ctr EXCEPT !.msg = Bump(@, 1)]
         /\ circ' = [circ EXCEPT ![n] = Beat(@, n, cid)]
         /\ UNCHANGED <<retryC>>
-     ELSE IF Has(retryC[n], cid) /\ retryC[n][cid].ident = m.ident /\ Has(circ[n], cid) THEN
+     ELSE IF Has(retryC[n], cid) /\ (retryC[n][cid].ident = m.ident \/ ~CheckIdent) /\ Has(circ[n], cid) THEN
         /\ Ours(n, cid, m, {d}) /\ UNCHANGED <<relay, createC>>
      ELSE
         /\ Emit({d}, <<>>) /\ circ' = [circ EXCEPT ![n] = Beat(@, n, cid)]
@@ -339,7 +362,7 @@ OnCreated(d) ==
 OnExtended(d) ==
   /\ d \in net /\ d.t = "cell" /\ d.dst \in Node /\ Accepted(d.dst, d) /\ d.m.t = "extended"
   /\ LET n == d.dst  m == d.m  cid == d.cid IN
-     IF Has(retryC[n], cid) /\ retryC[n][cid].ident = m.ident /\ Has(circ[n], cid) THEN Ours(n, cid, m, {d})
+     IF Has(retryC[n], cid) /\ (retryC[n][cid].ident = m.ident \/ ~CheckIdent) /\ Has(circ[n], cid) THEN Ours(n, cid, m, {d})
      ELSE /\ Emit({d}, <<>>) /\ circ' = [circ EXCEPT ![n] = Beat(@, n, cid)]
           /\ UNCHANGED <<retryC, pend, ctr>>
   /\ UNCHANGED <<relay, exit, createdC, createC, pingC, now, sweepAt, pingAt, hist, budget>>
@@ -364,17 +387,19 @@ OnExtend(d) ==
   /\ circ' = [circ EXCEPT ![d.dst] = Beat(@, d.dst, d.cid)]
   /\ UNCHANGED <<relay, exit, retryC, createdC, pingC, pend, now, sweepAt, pingAt, hist, budget>>
 
+\* what a receiver gets out of a data cell: the payload that was sent, or - had a tampered layer come off - garbage (0)
+Seen(m) == IF "altered" \in DOMAIN m THEN 0 ELSE m.p
 \* on_data: at the circuit owner (data coming back) or at the exit (data leaving the tunnel)
 OnData(d) ==
   /\ d \in net /\ d.t = "cell" /\ d.dst \in Node /\ Accepted(d.dst, d) /\ d.m.t = "data"
   /\ LET n == d.dst  m == d.m  cid == d.cid IN
      \* ("circuit and origin and ..." in the code: the origin tuple is always truthy)
      IF Has(circ[n], cid) /\ d.src = FirstHopAddr(circ[n][cid]) THEN
-        /\ hist' = [hist EXCEPT !.origLog = @ \cup {[n |-> n, cid |-> cid, p |-> m.p, origin |-> m.origin]}]
+        /\ hist' = [hist EXCEPT !.origLog = @ \cup {[n |-> n, cid |-> cid, p |-> Seen(m), origin |-> m.origin]}]
         /\ exit' = exit
      ELSE IF m.dest # Null /\ Has(exit[n], cid) /\ (exit[n][cid].enabled \/ d.src = exit[n][cid].prev) THEN
         /\ exit' = [exit EXCEPT ![n] = Put(@, cid, [@[cid] EXCEPT !.enabled = TRUE, !.open = TRUE, !.act = now])]
-        /\ hist' = [hist EXCEPT !.exitLog = @ \cup {[n |-> n, cid |-> cid, p |-> m.p, dest |-> m.dest]}]
+        /\ hist' = [hist EXCEPT !.exitLog = @ \cup {[n |-> n, cid |-> cid, p |-> Seen(m), dest |-> m.dest]}]
      ELSE UNCHANGED <<exit, hist>>
   /\ circ' = [circ EXCEPT ![d.dst] = Beat(@, d.dst, d.cid)]
   /\ Emit({d}, <<>>)
@@ -389,7 +414,7 @@ ExitReturn(x, cid, p) ==
   /\ LET ex == exit[x][cid]
          m  == [t |-> "data", cid |-> cid, dest |-> Null, origin |-> "outside", p |-> p]
      IN Emit({}, StampIds(<<Cell(x, ex.prev, cid, FALSE, FALSE, <<Layer(ex.key, B)>>, m)>>))
-  /\ ctr' = [ctr EXCEPT !.msg = Bump(@, 1)]
+  /\ ctr' = [ctr EXCEPT !.msg = BumpN(x, @, 1)]
   /\ UNCHANGED <<circ, relay, exit, retryC, createdC, createC, pingC, pend, now, sweepAt, pingAt, hist, budget>>
 
 \* do_ping (periodic): one ping per READY/EXTENDING circuit with at least one hop
@@ -412,7 +437,7 @@ DoPing(n) ==
   /\ LET r == PingAll(n, SetToSortSeq(PingTargets(n), LAMBDA a, b : a < b), circ[n], pingC[n], <<>>) IN
        /\ circ' = [circ EXCEPT ![n] = r.circ] /\ pingC' = [pingC EXCEPT ![n] = r.ping]
        /\ Emit({}, StampIds(r.msgs))
-       /\ ctr' = [ctr EXCEPT !.msg = Bump(@, Len(r.msgs)), !.ident = @ + Len(r.msgs)]
+       /\ ctr' = [ctr EXCEPT !.msg = BumpN(n, @, Len(r.msgs)), !.ident = @ + Len(r.msgs)]
   /\ pingAt' = [pingAt EXCEPT ![n] = now + PingEvery]
   /\ UNCHANGED <<relay, exit, retryC, createdC, createC, pend, now, sweepAt, hist, budget>>
 
@@ -500,7 +525,7 @@ RetryTimeout(n, cid) ==
            /\ retryC' = [retryC EXCEPT ![n] = Put(@, cid, [ident |-> id, tries |-> rc.tries - 1, alts |-> Tail(rc.alts),
                                                           kind |-> rc.kind, due |-> now + NextHop])]
            /\ Emit({}, StampIds(<<cell>>))
-           /\ ctr' = [ctr EXCEPT !.eph = e, !.ident = id, !.msg = Bump(@, 1)]
+           /\ ctr' = [ctr EXCEPT !.eph = e, !.ident = id, !.msg = BumpN(n, @, 1)]
            /\ UNCHANGED pend
   /\ UNCHANGED <<relay, exit, createdC, createC, pingC, now, sweepAt, pingAt, hist, budget>>
 
@@ -536,6 +561,11 @@ Deadlines ==
   \cup UNION {{pingC[n][c] : c \in DOMAIN pingC[n]} : n \in Node}
   \cup (IF AutoTimers THEN {sweepAt[n] : n \in Node} \cup {pingAt[n] : n \in Node} ELSE {})
 
+\* the node's endpoint closes for good (process gone / cable pulled): nothing is sent or received any more
+Vanish(n) ==
+  /\ MayVanish /\ n \notin gone /\ gone' = gone \cup {n}
+  /\ UNCHANGED <<circ, relay, exit, retryC, createdC, createC, pingC, pend, net, ctr, now, sweepAt, pingAt, hist, budget>>
+
 (* -------------------------------------------- network faults -------------------------------------------- *)
 Lose(d) == /\ d \in net /\ budget.loss < MaxLoss
            /\ net' = net \ {d} /\ budget' = [budget EXCEPT !.loss = @ + 1]
@@ -545,7 +575,7 @@ Dup(d) == /\ d \in net /\ budget.dup < MaxDup
           /\ budget' = [budget EXCEPT !.dup = @ + 1]
           /\ UNCHANGED <<circ, relay, exit, retryC, createdC, createC, pingC, pend, now, sweepAt, pingAt, hist>>
 \* a datagram addressed to the attacker's address (or to nobody) disappears
-Sink(d) == /\ d \in net /\ d.dst \notin Node
+Sink(d) == /\ d \in net /\ (d.dst \notin Node \/ d.dst \in gone)
            /\ net' = net \ {d}
            /\ UNCHANGED <<circ, relay, exit, retryC, createdC, createC, pingC, pend, ctr, now, sweepAt, pingAt, hist, budget>>
 
@@ -557,19 +587,21 @@ AdvKey == [e1 |-> 0, e2 |-> 0, st |-> Adv]
 
 \* any byte of an encrypted cell altered in flight (the outermost AEAD layer no longer verifies)
 Tamper(d) == /\ AdvStep /\ d \in net /\ d.t = "cell" /\ d.L # <<>>
-             /\ net' = (net \ {d}) \cup {[d EXCEPT !.L = <<[Head(d.L) EXCEPT !.ok = FALSE]>> \o Tail(d.L)]}
+             /\ net' = (net \ {d}) \cup {[d EXCEPT !.L = <<[Head(d.L) EXCEPT !.ok = FALSE]>> \o Tail(d.L),
+                                                        !.m = [altered |-> TRUE] @@ @]}
              /\ UNCHANGED ctr /\ AdvFrame
 \* a header byte altered: the datagram no longer reaches a tunnel handler (prefix, message id, signature), names an
 \* unknown circuit (cid), or carries flipped plaintext / relay_early flags
 \* ghost mark: this message was re-labelled by the attacker (the layering claims speak about untouched cells)
 Taint(m) == [taint |-> TRUE] @@ m
 TamperHeader(d, what) ==
-  /\ AdvStep /\ d \in net /\ what \in {"drop", "cid", "plain", "early"}
+  /\ AdvStep /\ d \in net /\ what \in {"drop", "cid", "plain", "early", "same"}
   /\ d.t = "destroy" => what = "drop"
   /\ net' = CASE what = "drop" -> net \ {d}
               [] what = "cid" -> (net \ {d}) \cup {[d EXCEPT !.cid = 0, !.m = Taint(@)]}
               [] what = "plain" -> (net \ {d}) \cup {[d EXCEPT !.plain = ~@, !.m = Taint(@)]}
               [] what = "early" -> (net \ {d}) \cup {[d EXCEPT !.early = ~@, !.m = Taint(@)]}
+              [] what = "same" -> net      \* a flag byte changed between two non-zero values: same meaning
   /\ UNCHANGED ctr /\ AdvFrame
 \* an in-flight cell of one circuit re-labelled with another circuit id
 Splice(d, cid) == /\ AdvStep /\ d \in net /\ d.t = "cell" /\ d.L # <<>> /\ cid \in 1..ctr.cid /\ cid # d.cid
@@ -617,8 +649,9 @@ MangleAnswer(d, how, newcid) ==
   /\ UNCHANGED ctr /\ AdvFrame
 
 (* ------------------------------------------------- Next ------------------------------------------------- *)
-Deliver(d) == DropCell(d) \/ RelayCell(d) \/ OnCreate(d) \/ OnCreated(d) \/ OnExtend(d) \/ OnExtended(d)
-              \/ OnData(d) \/ OnPing(d) \/ OnPong(d) \/ OnDestroy(d) \/ Sink(d)
+Deliver(d) == \/ d.dst \notin gone /\ (DropCell(d) \/ RelayCell(d) \/ OnCreate(d) \/ OnCreated(d) \/ OnExtend(d) \/ OnExtended(d)
+                                        \/ OnData(d) \/ OnPing(d) \/ OnPong(d) \/ OnDestroy(d))
+              \/ Sink(d)
 
 NextDeadline == IF {x \in Deadlines : x > now} = {} THEN MaxNow
                 ELSE CHOOSE x \in Deadlines : x > now /\ \A y \in Deadlines : y > now => x <= y
@@ -636,6 +669,7 @@ Core ==
   \/ \E o \in Origins, cid \in 1..ctr.cid : SendData(o, cid, "outside")
   \/ \E o \in Origins, cid \in 1..ctr.cid, ds \in BOOLEAN : RemoveCircuit(o, cid, ds)
   \/ \E d \in net : Deliver(d)
+  \/ NodeTeardown /\ \E n \in Node, cid \in 1..ctr.cid : (~\E q \in pend : q.n = n /\ q.cid = cid) /\ (NodeRemoveRelay(n, cid) \/ NodeRemoveExit(n, cid))
   \/ \E x \in Node, cid \in 1..ctr.cid, p \in 1..ctr.data : ExitReturn(x, cid, p)
   \/ \E n \in Node : (AutoTimers /\ now = pingAt[n] /\ DoPing(n)) \/ (AutoTimers /\ now = sweepAt[n] /\ Sweep(n))
   \/ \E p \in pend : PendPop(p)
@@ -657,7 +691,7 @@ Adversary ==
         (how # "cid" => c = 0) /\ MangleAnswer(d, how, c)
 
 Tail2 == wire' = (IF TrackWire THEN wire \cup net' ELSE wire) /\ stepc' = (IF UseIds THEN stepc + 1 ELSE 0)
-Next == (Core \/ Adversary) /\ Tail2
+Next == (((Core \/ Adversary) /\ gone' = gone) \/ (\E n \in Origins : Vanish(n))) /\ Tail2
 Spec == Init /\ [][Next]_vars
 
 (* ================================================ properties =============================================== *)
